@@ -22,6 +22,9 @@ def groups(tier):
             continue
         out.append({"w": w, "h": h, "n": 5, "content": c, "enc_mode": pr, "hierarchical_levels": 3, "encoder_bit_depth": bd,
                     "is_16bit_pipeline": pipe, "recon_enabled": 1})
+    # full 64x64 superblocks with extreme contrast (the saturating / overflow paths of the SAD, variance and SSE kernels) and real motion
+    for c, pr, (w, h) in itertools.product(("binary", "noise", "screen"), (8, 4) if tier == "quick" else (8, 6, 4, 2), ((192, 128),) if tier == "quick" else ((192, 128), (256, 192))):
+        out.append({"w": w, "h": h, "n": 5, "content": c, "enc_mode": pr, "hierarchical_levels": 3, "encoder_bit_depth": 8, "recon_enabled": 1})
     if tier == "thorough":
         import cfgspace
         for f, v in cfgspace.single_deviations(["screen_content_mode", "palette_level", "obmc_level", "enable_warped_motion", "cdef_level",
